@@ -88,6 +88,55 @@ ssize_t __wrap_read(int fd, void *buf, size_t count) {
 static int datafd = -1;
 static char datapath[64];
 
+/* ---- the same functions called from several threads at once (they take no lock and the model
+ * treats them as pure functions of their arguments: no hidden static state) ---- */
+#include <pthread.h>
+typedef struct { int t, rounds; const unsigned char *p; size_t n; long off, nb; char out[512]; int unstable; } mt_job_t;
+static pthread_barrier_t mt_bar;
+static void all_line(const unsigned char *p, size_t n, char *out) {
+    static const char *names[5] = {"md5", "fnv32", "fnv64", "m32", "m128"};
+    static const int which[5] = {H_MD5, H_FNV32, H_FNV64, H_M32, H_M128};
+    char *q = out;
+    for (int i = 0; i < 5; i++) {
+        char r[64];
+        run_one(which[i], p, n, 0, 0, 0, r, sizeof r);
+        q += sprintf(q, "%s%s=%s", i ? " " : "", names[i], r);
+    }
+}
+static void *mt_mem(void *arg) {
+    mt_job_t *j = arg;
+    unsigned char *rot = malloc(j->n ? j->n : 1);
+    for (size_t i = 0; i < j->n; i++) rot[i] = j->p[(i + (size_t) j->t) % j->n];
+    pthread_barrier_wait(&mt_bar);
+    for (int r = 0; r < j->rounds; r++) {
+        char cur[512];
+        all_line(rot, j->n, cur);
+        if (r == 0) strcpy(j->out, cur); else if (strcmp(cur, j->out)) j->unstable = 1;
+    }
+    free(rot);
+    return NULL;
+}
+static void *mt_file(void *arg) {
+    mt_job_t *j = arg;
+    pthread_barrier_wait(&mt_bar);
+    for (int r = 0; r < j->rounds; r++) {
+        unsigned char dg[16]; char cur[64]; char *q = cur;
+        bool ok = qhashmd5_file(datapath, (off_t) j->off, (ssize_t) j->nb, dg);
+        if (!ok) strcpy(cur, "false"); else for (int i = 0; i < 16; i++) q += sprintf(q, "%02x", dg[i]);
+        if (r == 0) strcpy(j->out, cur); else if (strcmp(cur, j->out)) j->unstable = 1;
+    }
+    return NULL;
+}
+static void run_mt(mt_job_t *jobs, int T, void *(*fn)(void *)) {
+    pthread_t th[64];
+    pthread_barrier_init(&mt_bar, NULL, (unsigned) T);
+    for (int t = 0; t < T; t++) pthread_create(&th[t], NULL, fn, &jobs[t]);
+    for (int t = 0; t < T; t++) pthread_join(th[t], NULL);
+    pthread_barrier_destroy(&mt_bar);
+    printf("ok");
+    for (int t = 0; t < T; t++) printf(" | %s%s", jobs[t].unstable ? "UNSTABLE " : "", jobs[t].out);
+}
+
 static void dump_ctx(const MD5_CTX *c) {
     unsigned char st[16];
     memcpy(st, c->state, 16);
@@ -209,6 +258,27 @@ int main(void) {
             while (done < size) { ssize_t k = write(datafd, buf + done, (size_t)(size - done)); if (k <= 0) break; done += k; }
             free(buf);
             printf(done == size ? "ok" : "mkfile-failed");
+        } else if (nw == 4 && !strcmp(op, "allmt")) {
+            /* allmt <threads> <rounds> <hex>: thread t hashes the input rotated by t bytes */
+            int T = atoi(w[1]); bytes_t a;
+            if (T < 1 || T > 64 || !unhex(w[3], &a)) { printf("bad-op\n"); fflush(stdout); free(w); continue; }
+            mt_job_t *jobs = calloc((size_t) T, sizeof *jobs);
+            for (int t = 0; t < T; t++) { jobs[t].t = t; jobs[t].rounds = atoi(w[2]); jobs[t].p = a.p; jobs[t].n = a.n; }
+            run_mt(jobs, T, mt_mem);
+            free(jobs); free(a.p);
+        } else if (nw >= 5 && !strcmp(op, "md5filemt")) {
+            /* md5filemt <threads> <rounds> <off nb>...: thread t hashes range t mod #ranges */
+            if (datafd < 0) { printf("no-file\n"); fflush(stdout); free(w); continue; }
+            int T = atoi(w[1]), nr = (nw - 3) / 2;
+            if (T < 1 || T > 64 || nr < 1) { printf("bad-op\n"); fflush(stdout); free(w); continue; }
+            mt_job_t *jobs = calloc((size_t) T, sizeof *jobs);
+            for (int t = 0; t < T; t++) {
+                jobs[t].t = t; jobs[t].rounds = atoi(w[2]);
+                jobs[t].off = atol(w[3 + 2 * (t % nr)]); jobs[t].nb = atol(w[4 + 2 * (t % nr)]);
+            }
+            nsched = 0; isched = 0;
+            run_mt(jobs, T, mt_file);
+            free(jobs);
         } else if (nw >= 3 && !strcmp(op, "md5file")) {
             if (datafd < 0) { printf("no-file\n"); fflush(stdout); free(w); continue; }
             long off = atol(w[1]), nb = atol(w[2]);
